@@ -18,6 +18,7 @@ import (
 	"context"
 	"errors"
 	"fmt"
+	"maps"
 	"math/bits"
 	"runtime"
 	"slices"
@@ -1396,7 +1397,16 @@ func (c ipamClient) releaseIPsFromBlock(ctx context.Context, config *IPAMConfig,
 		// Success - decrement handles.
 		logCtx.Debugf("Decrementing handles: %v", handles)
 		for handleID, amount := range handles {
-			if err := c.decrementHandle(ctx, handleID, blockCIDR, amount, handleMap[handleID]); err != nil {
+			// The handle cache is shared by the goroutines that ReleaseIPs starts (one per block), and
+			// decrementHandle modifies the object it is given.  Work on a private copy, otherwise two blocks
+			// releasing addresses of the same handle write to one map concurrently and can decrement twice.
+			var cached *model.KVPair
+			if h := handleMap[handleID]; h != nil {
+				hv := *h.Value.(*model.IPAMHandle)
+				hv.Block = maps.Clone(hv.Block)
+				cached = &model.KVPair{Key: h.Key, Value: &hv, Revision: h.Revision, UID: h.UID}
+			}
+			if err := c.decrementHandle(ctx, handleID, blockCIDR, amount, cached); err != nil {
 				logCtx.WithError(err).Warn("Failed to decrement handle")
 			}
 		}
